@@ -1,26 +1,1173 @@
-//! C12: not implemented yet.
+//! C12: initial storage slots match what storage reads return.
+//!
+//! Monitor: random `storage { .. }` declarations (nested namespaces, `in <key>` fields,
+//! initialisers of every fixed-size type) are built by the real forc-test flow
+//! (`engine::run_unit_tests`): forc-test deploys the contract with the storage slots the build
+//! emitted and runs `#[test]` functions that call getters / setters of the contract in the VM.
+//! Checks: (1) every `storage.<path>.read()` logs the canonical encoding of the declared
+//! initialiser (also for struct members read through `storage.f.member.read()`); (2) the slot
+//! key the program uses (`.slot()`) and the key of the emitted slots are the documented
+//! `sha256(0x00 ++ "storage::<ns>::<ns>.<field>")`, recomputed here with the sha2 crate, or the
+//! explicit `in` key; (3) the emitted slots partition into the pairwise disjoint ranges
+//! `[key, key + n_slots)` of the declared fields; (4) a second test writes every field (and some
+//! struct members) and re-reads everything after each write: the written field reads back the
+//! new value, all other fields are unchanged.
+use crate::c11::abi::*;
 use crate::common::*;
+use crate::engine::*;
 use crate::{Plan, Prop};
+use rand::seq::SliceRandom;
+use rand::{rngs::StdRng, Rng};
+use serde_json::{json, Value};
+use sha2::{Digest, Sha256};
+use std::collections::BTreeSet;
+use std::fmt::Write;
+use std::panic::AssertUnwindSafe;
 
 pub static META: PropertyMeta = PropertyMeta {
     id: "C12",
     level: "exploration",
-    rule: "not implemented",
-    assumptions: &[],
-    floor_evaluations: 1,
-    floor_nontrivial: 2,
-    required_counters: &[],
+    rule: "random storage declarations (1..12 fields of u8..u256, bool, b256, str[N], tuples, structs, enums incl. unit-only and multi-slot values; namespaces nested 0..3 deep with re-used field and namespace names; ~30% fields with explicit `in` keys chosen adjacent, small, or with carries across 64-bit words) x {debug, release}, deployed by forc test with the emitted slots; an evaluation = one (package, profile) whose read test executed; non-trivial = the package declares at least two fields; distinct = hash of (package source, profile)",
+    assumptions: &[
+        "fuel-vm and forc-test's deployment (storage slots from the build) are the trusted execution substrate",
+        "std::logging::log of a value emits its canonical ABI encoding (property C09's subject); the expected bytes are computed by the harness's own encoder",
+        "the number of slots of a field is ceil(__size_of::<T>() / 32) (at least 1) with __size_of as reported by the program itself; the harness's own layout model is only used to choose non-overlapping explicit keys and a disagreement makes the case inconclusive",
+    ],
+    floor_evaluations: 8,
+    floor_nontrivial: 4,
+    required_counters: &[
+        "fields",
+        "reads_compared",
+        "keys_recomputed",
+        "disjointness_checks",
+        "emitted_slots_attributed",
+        "explicit_key_fields",
+        "slots.1",
+        "slots.2",
+        "slots.gt2",
+        "ns_depth.0",
+        "ns_depth.1",
+        "ns_depth.2",
+        "writes_checked",
+        "neighbour_reads_after_write",
+        "member_reads_compared",
+        "profile.debug",
+        "profile.release",
+        "oracle_selftest_corruption_classes_detected",
+    ],
 };
 
 pub static PROP: Prop = Prop {
     meta: &META,
-    plan: |_t| Plan { nshards: 1, budget_s: 1.0, mem_gib: 0 },
-    shard: |_ctx| {
-        let mut r = ShardResult::default();
-        r.harness_fault = Some("not implemented".into());
-        r
+    plan: |t| {
+        // see c11.rs: forc-test builds under load can exceed the default 60 s per-case watchdog
+        if std::env::var("SWVERIF_CASE_WATCHDOG_S").is_err() {
+            std::env::set_var("SWVERIF_CASE_WATCHDOG_S", "300");
+        }
+        Plan { nshards: 16, budget_s: t.pick(50.0, 1000.0), mem_gib: 6 }
     },
-    replay: crate::no_replay,
+    shard,
+    replay,
     extra: crate::no_extra,
-    subcommand: crate::no_subcommand,
+    subcommand,
 };
+
+const MARK_RD_BEGIN: u64 = 0xC12A_0001;
+const MARK_RD_END: u64 = 0xC12A_0002;
+const MARK_META: u64 = 0xC12A_0003;
+const MARK_SUB: u64 = 0xC12A_0004;
+const MARK_WR: u64 = 0xC12B_0000;
+const MARK_DONE: u64 = 0xC12D_0000;
+
+/// member access through tuples (`storage.f.1`) in addition to struct members
+const TUPLE_PATHS: bool = false;
+
+#[derive(Clone, Debug)]
+struct Field {
+    ns: Vec<String>,
+    name: String,
+    key: Option<[u8; 32]>,
+    ty: Ty,
+    init: Val,
+    /// the initialiser is written as a reference to a `const` item
+    via_const: bool,
+}
+
+#[derive(Clone, Debug)]
+struct WStep {
+    field: usize,
+    /// empty = the whole field
+    path: Vec<usize>,
+    ty: Ty,
+    val: Val,
+}
+
+#[derive(Clone, Debug)]
+struct Spec {
+    types: Types,
+    fields: Vec<Field>,
+    /// (field, member path)
+    subreads: Vec<(usize, Vec<usize>)>,
+    steps: Vec<WStep>,
+    /// Some(name): one of the fixed witnesses of the known serialisation defect
+    witness: Option<&'static str>,
+}
+
+impl Field {
+    fn access(&self) -> String {
+        if self.ns.is_empty() {
+            format!("storage.{}", self.name)
+        } else {
+            format!("storage::{}.{}", self.ns.join("::"), self.name)
+        }
+    }
+    /// the documented pre-image of an implicit key
+    fn key_string(&self) -> String {
+        if self.ns.is_empty() {
+            format!("storage.{}", self.name)
+        } else {
+            format!("storage::{}.{}", self.ns.join("::"), self.name)
+        }
+    }
+    fn expected_key(&self) -> [u8; 32] {
+        match self.key {
+            Some(k) => k,
+            None => {
+                let mut h = Sha256::new();
+                h.update([0u8]);
+                h.update(self.key_string().as_bytes());
+                h.finalize().into()
+            }
+        }
+    }
+}
+
+fn slots_of(size: u64) -> u64 {
+    ((size + 31) / 32).max(1)
+}
+
+// ------------------------------------------------------------------------------------------
+// generator
+
+/// member paths (through structs, optionally tuples) of a type, with the member type
+fn member_paths(types: &Types, t: &Ty, prefix: &mut Vec<usize>, out: &mut Vec<(Vec<usize>, Ty)>, depth: u32) {
+    let members: Vec<Ty> = match t {
+        Ty::Struct(i) => types.structs[*i].clone(),
+        Ty::Tuple(ts) if TUPLE_PATHS => ts.clone(),
+        _ => return,
+    };
+    if depth == 0 {
+        return;
+    }
+    for (j, m) in members.iter().enumerate() {
+        prefix.push(j);
+        out.push((prefix.clone(), m.clone()));
+        member_paths(types, m, prefix, out, depth - 1);
+        prefix.pop();
+    }
+}
+
+fn path_str(types: &Types, t: &Ty, path: &[usize]) -> String {
+    let mut s = String::new();
+    let mut cur = t.clone();
+    for j in path {
+        match &cur {
+            Ty::Struct(i) => {
+                let _ = write!(s, ".f{j}");
+                cur = types.structs[*i][*j].clone();
+            }
+            Ty::Tuple(ts) => {
+                let _ = write!(s, ".{j}");
+                cur = ts[*j].clone();
+            }
+            _ => panic!("c12: bad member path"),
+        }
+    }
+    s
+}
+
+fn val_at<'a>(v: &'a Val, path: &[usize]) -> &'a Val {
+    let mut cur = v;
+    for j in path {
+        cur = match cur {
+            Val::Struct(vs) | Val::Tuple(vs) => &vs[*j],
+            _ => panic!("c12: bad member path in value"),
+        };
+    }
+    cur
+}
+
+fn set_at(v: &mut Val, path: &[usize], new: Val) {
+    let mut cur = v;
+    for j in path {
+        cur = match cur {
+            Val::Struct(vs) | Val::Tuple(vs) => &mut vs[*j],
+            _ => panic!("c12: bad member path in value"),
+        };
+    }
+    *cur = new;
+}
+
+fn cmp_key(a: &[u8; 32], b: &[u8; 32]) -> std::cmp::Ordering {
+    a.cmp(b)
+}
+
+fn ranges_overlap(a: &([u8; 32], u64), b: &([u8; 32], u64)) -> bool {
+    // [a, a+n) and [b, b+m), no wrap (callers only pass ranges whose end does not overflow)
+    let (Some(ae), Some(be)) = (key_add(&a.0, a.1), key_add(&b.0, b.1)) else { return true };
+    cmp_key(&a.0, &be).is_lt() && cmp_key(&b.0, &ae).is_lt()
+}
+
+fn gen_spec(rng: &mut StdRng) -> Spec {
+    let opts = TyOpts { arrays: false, strs: true, max_bytes: 220 };
+    let mut types = gen_types(rng, &opts);
+    // one struct whose members have all the interesting sizes at shuffled offsets (one byte,
+    // one word, four words, several words, an enum), so that member reads / writes start at
+    // every word of a slot and cross slot boundaries
+    let probe_struct = {
+        let mut ms: Vec<Ty> = vec![Ty::U8, Ty::U64, Ty::B256, Ty::U256, Ty::Bool, Ty::U16, Ty::Str(*choose(rng, &[3usize, 8, 9, 17])), Ty::Tuple(vec![Ty::U64, Ty::B256])];
+        if !types.enums.is_empty() {
+            ms.push(Ty::Enum(rng.gen_range(0..types.enums.len())));
+        }
+        if !types.structs.is_empty() {
+            ms.push(Ty::Struct(rng.gen_range(0..types.structs.len())));
+        }
+        ms.shuffle(rng);
+        ms.truncate(rng.gen_range(3..=7));
+        types.structs.push(ms);
+        Ty::Struct(types.structs.len() - 1)
+    };
+    // namespaces
+    let ns_names = ["n1", "n2", "n3", "a", "value", "m"];
+    let mut paths: Vec<Vec<String>> = vec![vec![]];
+    let n_ns = rng.gen_range(0..=5);
+    for _ in 0..n_ns {
+        let parent = paths[rng.gen_range(0..paths.len())].clone();
+        if parent.len() >= 3 {
+            continue;
+        }
+        let mut p = parent;
+        p.push(choose(rng, &ns_names).to_string());
+        if !paths.contains(&p) {
+            paths.push(p);
+        }
+    }
+    let n_fields = match rng.gen_range(0..10) {
+        0 => 1,
+        1 | 2 => 12,
+        _ => rng.gen_range(2..=11),
+    };
+    let field_names = ["a", "b", "c", "x", "value", "n1", "owner", "f0"];
+    let mut fields: Vec<Field> = vec![];
+    let mut explicit: Vec<([u8; 32], u64)> = vec![];
+    for k in 0..n_fields {
+        let ns = paths[rng.gen_range(0..paths.len())].clone();
+        // a field name that is neither used in this namespace nor the name of a child namespace
+        let mut name = choose(rng, &field_names).to_string();
+        let clash = |name: &str, fields: &[Field]| fields.iter().any(|f| f.ns == ns && f.name == name) || paths.iter().any(|p| p.len() == ns.len() + 1 && p[..ns.len()] == ns[..] && p[ns.len()] == name);
+        if clash(&name, &fields) {
+            name = format!("{name}{k}");
+        }
+        if clash(&name, &fields) {
+            name = format!("fld{k}");
+        }
+        // The random exploration stays clear of the shape of the known defect (see
+        // `unit_variant_before_data`); that shape is covered by the fixed witnesses.
+        let mut choice = None;
+        for _ in 0..30 {
+            let ty = match rng.gen_range(0..10) {
+                _ if k == 0 && rng.gen_bool(0.7) => probe_struct.clone(),
+                0 => Ty::U8,
+                1 => Ty::Bool,
+                2 => choose(rng, &[Ty::U16, Ty::U32, Ty::U64]).clone(),
+                3 => choose(rng, &[Ty::U256, Ty::B256]).clone(),
+                4 if k <= 2 => probe_struct.clone(),
+                _ => gen_ty(rng, &types, 2, &opts),
+            };
+            for _ in 0..4 {
+                let init = gen_val(rng, &ty, &types);
+                if !unit_variant_before_data(&types, &ty, &init) {
+                    choice = Some((ty.clone(), init));
+                    break;
+                }
+            }
+            if choice.is_some() {
+                break;
+            }
+        }
+        let (ty, init) = choice.unwrap_or((Ty::U64, Val::U(k as u64)));
+        let n = slots_of(types.mem_size(&ty));
+        let key = if rng.gen_bool(0.3) {
+            let mut chosen = None;
+            for _ in 0..10 {
+                let mut k = [0u8; 32];
+                match rng.gen_range(0..6) {
+                    0 => k[31] = rng.gen_range(0..4) * 16,
+                    1 if !explicit.is_empty() => {
+                        // directly after an earlier explicit field
+                        let (pk, pn) = explicit[rng.gen_range(0..explicit.len())];
+                        match key_add(&pk, pn) {
+                            Some(x) => k = x,
+                            None => continue,
+                        }
+                    }
+                    2 if !explicit.is_empty() => {
+                        // directly before an earlier explicit field
+                        let (pk, _) = explicit[rng.gen_range(0..explicit.len())];
+                        let mut below = pk;
+                        // subtract n (borrow through the words)
+                        let mut borrow = n as u128;
+                        for i in (0..4).rev() {
+                            let w = u64::from_be_bytes(below[i * 8..i * 8 + 8].try_into().unwrap()) as u128;
+                            let (r, b) = if w >= borrow { (w - borrow, 0) } else { ((1u128 << 64) + w - borrow, 1) };
+                            below[i * 8..i * 8 + 8].copy_from_slice(&(r as u64).to_be_bytes());
+                            borrow = b;
+                            if borrow == 0 {
+                                break;
+                            }
+                        }
+                        if borrow != 0 {
+                            continue;
+                        }
+                        k = below;
+                    }
+                    3 => {
+                        // the range crosses a 64-bit word boundary (carry into the next word)
+                        rng.fill(&mut k[..]);
+                        let words = rng.gen_range(1..=3);
+                        for b in k[32 - 8 * words..].iter_mut() {
+                            *b = 0xff;
+                        }
+                        k[31] = 0xff - rng.gen_range(0..n.min(200)) as u8;
+                    }
+                    _ => {
+                        rng.fill(&mut k[..]);
+                        if k[0] == 0xff {
+                            k[0] = 0x7f;
+                        }
+                    }
+                }
+                let r = (k, n);
+                if key_add(&k, n).is_some() && !explicit.iter().any(|e| ranges_overlap(e, &r)) {
+                    chosen = Some(k);
+                    break;
+                }
+            }
+            chosen
+        } else {
+            None
+        };
+        if let Some(k) = key {
+            explicit.push((k, n));
+        }
+        let via_const = rng.gen_bool(0.2);
+        fields.push(Field { ns, name, key, ty, init, via_const });
+    }
+    // member reads
+    let mut subreads = vec![];
+    let mut all_paths: Vec<(usize, Vec<usize>, Ty)> = vec![];
+    for (i, f) in fields.iter().enumerate() {
+        let mut out = vec![];
+        member_paths(&types, &f.ty, &mut vec![], &mut out, 3);
+        for (p, t) in out {
+            all_paths.push((i, p, t));
+        }
+    }
+    all_paths.shuffle(rng);
+    for (i, p, _) in all_paths.iter().take(12) {
+        subreads.push((*i, p.clone()));
+    }
+    // writes: every field once (shuffled) plus some member writes
+    let mut steps: Vec<WStep> = (0..fields.len())
+        .map(|i| {
+            let ty = fields[i].ty.clone();
+            let val = gen_val(rng, &ty, &types);
+            WStep { field: i, path: vec![], ty, val }
+        })
+        .collect();
+    for (i, p, t) in all_paths.iter().take(8) {
+        let val = gen_val(rng, t, &types);
+        steps.push(WStep { field: *i, path: p.clone(), ty: t.clone(), val });
+    }
+    steps.shuffle(rng);
+    Spec { types, fields, subreads, steps, witness: None }
+}
+
+/// The shape of the known defect (known_findings.d/C12.json): in serialisation order a unit
+/// variant of an enum that also has payload-carrying variants is followed by further data of
+/// the same storage field. (Enums with unit variants only are not affected.)
+fn unit_variant_before_data(types: &Types, t: &Ty, v: &Val) -> bool {
+    fn walk(types: &Types, t: &Ty, v: &Val, seen_unit: &mut bool, hit: &mut bool) {
+        match (t, v) {
+            (Ty::Enum(i), Val::Enum(k, p)) => {
+                // the tag word
+                if *seen_unit {
+                    *hit = true;
+                }
+                match (&types.enums[*i][*k], p) {
+                    (Some(pt), Some(pv)) => walk(types, pt, pv, seen_unit, hit),
+                    _ => {
+                        if types.enums[*i].iter().any(|v| v.is_some()) {
+                            *seen_unit = true;
+                        }
+                    }
+                }
+            }
+            (Ty::Tuple(ts), Val::Tuple(vs)) => ts.iter().zip(vs).for_each(|(t, v)| walk(types, t, v, seen_unit, hit)),
+            (Ty::Struct(i), Val::Struct(vs)) => types.structs[*i].iter().zip(vs).for_each(|(t, v)| walk(types, t, v, seen_unit, hit)),
+            (Ty::Array(t, _), Val::Array(vs)) => vs.iter().for_each(|v| walk(types, t, v, seen_unit, hit)),
+            (Ty::Str(0), _) => {}
+            _ => {
+                if *seen_unit {
+                    *hit = true;
+                }
+            }
+        }
+    }
+    let (mut seen, mut hit) = (false, false);
+    walk(types, t, v, &mut seen, &mut hit);
+    hit
+}
+
+/// Fixed witnesses of the known defect: (name, types, field type, initialiser).
+fn witnesses() -> Vec<(&'static str, Types, Ty, Val)> {
+    let unit_or_u64 = vec![None, Some(Ty::U64)];
+    vec![
+        (
+            "tuple-unit-variant-then-u64",
+            Types { structs: vec![], enums: vec![unit_or_u64.clone()] },
+            Ty::Tuple(vec![Ty::Enum(0), Ty::U64]),
+            Val::Tuple(vec![Val::Enum(0, None), Val::U(0x1122334455667788)]),
+        ),
+        (
+            "unit-variant-beside-three-word-variant-two-slots",
+            Types { structs: vec![vec![Ty::U64, Ty::U16, Ty::U64]], enums: vec![vec![None, Some(Ty::Struct(0)), None]] },
+            Ty::Tuple(vec![Ty::U64, Ty::Enum(0), Ty::U64]),
+            Val::Tuple(vec![Val::U(7), Val::Enum(2, None), Val::U(u64::MAX - 1)]),
+        ),
+        (
+            "unit-variant-inside-enum-payload",
+            Types { structs: vec![], enums: vec![unit_or_u64, vec![Some(Ty::Tuple(vec![Ty::Enum(0), Ty::B256])), None]] },
+            Ty::Enum(1),
+            Val::Enum(0, Some(Box::new(Val::Tuple(vec![Val::Enum(0, None), Val::W([0xa5; 32])])))),
+        ),
+    ]
+}
+
+fn witness_spec(name: &str) -> Option<Spec> {
+    let (n, types, ty, init) = witnesses().into_iter().find(|w| w.0 == name)?;
+    let fields = vec![
+        Field { ns: vec![], name: "before".into(), key: None, ty: Ty::U64, init: Val::U(1), via_const: false },
+        Field { ns: vec!["n1".into()], name: "w".into(), key: None, ty, init, via_const: false },
+        Field { ns: vec![], name: "after".into(), key: None, ty: Ty::U64, init: Val::U(2), via_const: false },
+    ];
+    Some(Spec { types, fields, subreads: vec![], steps: vec![], witness: Some(n) })
+}
+
+#[derive(Default)]
+struct Node {
+    fields: Vec<usize>,
+    children: Vec<(String, Node)>,
+}
+
+fn render_node(spec: &Spec, node: &Node, indent: usize, s: &mut String) {
+    let pad = " ".repeat(indent);
+    for &i in &node.fields {
+        let f = &spec.fields[i];
+        let key = f.key.map(|k| format!(" in 0x{}", hex::encode(k))).unwrap_or_default();
+        let init = if f.via_const { format!("K{i}") } else { spec.types.lit(&f.ty, &f.init) };
+        let _ = writeln!(s, "{pad}{}{key}: {} = {init},", f.name, spec.types.name(&f.ty));
+    }
+    for (name, child) in &node.children {
+        let _ = writeln!(s, "{pad}{name} {{");
+        render_node(spec, child, indent + 4, s);
+        let _ = writeln!(s, "{pad}}},");
+    }
+}
+
+fn render(spec: &Spec) -> String {
+    let t = &spec.types;
+    let mut s = String::from("contract;\n\n");
+    s.push_str(&t.decls());
+    // namespace tree
+    let mut root = Node::default();
+    for (i, f) in spec.fields.iter().enumerate() {
+        let mut node = &mut root;
+        for seg in &f.ns {
+            let pos = match node.children.iter().position(|(n, _)| n == seg) {
+                Some(p) => p,
+                None => {
+                    node.children.push((seg.clone(), Node::default()));
+                    node.children.len() - 1
+                }
+            };
+            node = &mut node.children[pos].1;
+        }
+        node.fields.push(i);
+    }
+    s.push('\n');
+    for (i, f) in spec.fields.iter().enumerate() {
+        if f.via_const {
+            let _ = writeln!(s, "const K{i}: {} = {};", t.name(&f.ty), t.lit(&f.ty, &f.init));
+        }
+    }
+    s.push_str("\nstorage {\n");
+    render_node(spec, &root, 4, &mut s);
+    s.push_str("}\n\nabi Gen {\n    #[storage(read)]\n    fn rd();\n    #[storage(read)]\n    fn meta();\n    #[storage(read)]\n    fn sub();\n    #[storage(read, write)]\n    fn wr(k: u64);\n}\n\nimpl Gen for Contract {\n");
+    // rd
+    let _ = writeln!(s, "    #[storage(read)]\n    fn rd() {{\n        log({MARK_RD_BEGIN}u64);");
+    for f in &spec.fields {
+        let _ = writeln!(s, "        log({}.read());", f.access());
+    }
+    let _ = writeln!(s, "        log({MARK_RD_END}u64);\n    }}");
+    // meta
+    let _ = writeln!(s, "    #[storage(read)]\n    fn meta() {{\n        log({MARK_META}u64);");
+    for f in &spec.fields {
+        let _ = writeln!(s, "        log({}.slot());\n        log(__size_of::<{}>());", f.access(), t.name(&f.ty));
+    }
+    s.push_str("    }\n");
+    // sub
+    let _ = writeln!(s, "    #[storage(read)]\n    fn sub() {{\n        log({MARK_SUB}u64);");
+    for (i, p) in &spec.subreads {
+        let f = &spec.fields[*i];
+        let _ = writeln!(s, "        log({}{}.read());", f.access(), path_str(t, &f.ty, p));
+    }
+    s.push_str("    }\n");
+    // wr
+    let _ = writeln!(s, "    #[storage(read, write)]\n    fn wr(k: u64) {{\n        log({MARK_WR}u64 + k);");
+    for (j, st) in spec.steps.iter().enumerate() {
+        let f = &spec.fields[st.field];
+        let _ = writeln!(s, "        if k == {j}u64 {{\n            {}{}.write({});\n        }}", f.access(), path_str(t, &f.ty, &st.path), t.lit(&st.ty, &st.val));
+    }
+    s.push_str("    }\n}\n\n");
+    s.push_str("#[test]\nfn t_read() {\n    let c = abi(Gen, CONTRACT_ID);\n    c.rd();\n    c.meta();\n    c.sub();\n");
+    let _ = writeln!(s, "    log({MARK_DONE}u64);\n}}\n");
+    s.push_str("#[test]\nfn t_write() {\n    let c = abi(Gen, CONTRACT_ID);\n");
+    for j in 0..spec.steps.len() {
+        let _ = writeln!(s, "    c.wr({j}u64);\n    c.rd();");
+    }
+    let _ = writeln!(s, "    c.sub();\n    log({MARK_DONE}u64);\n}}");
+    s
+}
+
+// ------------------------------------------------------------------------------------------
+// model of the receipts
+
+#[derive(Clone, Copy, Debug)]
+enum Role {
+    Marker,
+    Read(usize),
+    Slot(usize),
+    Size(usize),
+    Member(usize),
+    /// read of `field` after write step `step`
+    ReadAfter { step: usize, field: usize },
+    MemberAfter(usize),
+}
+
+struct Expected {
+    entry: Entry,
+    role: Role,
+}
+
+fn u(x: u64) -> Vec<u8> {
+    x.to_be_bytes().to_vec()
+}
+
+fn expected_read(spec: &Spec) -> Vec<Expected> {
+    let t = &spec.types;
+    let mut out = vec![Expected { entry: Entry { callee: true, data: u(MARK_RD_BEGIN) }, role: Role::Marker }];
+    for (i, f) in spec.fields.iter().enumerate() {
+        out.push(Expected { entry: Entry { callee: true, data: t.encoded(&f.ty, &f.init) }, role: Role::Read(i) });
+    }
+    out.push(Expected { entry: Entry { callee: true, data: u(MARK_RD_END) }, role: Role::Marker });
+    out.push(Expected { entry: Entry { callee: true, data: u(MARK_META) }, role: Role::Marker });
+    for (i, f) in spec.fields.iter().enumerate() {
+        out.push(Expected { entry: Entry { callee: true, data: f.expected_key().to_vec() }, role: Role::Slot(i) });
+        out.push(Expected { entry: Entry { callee: true, data: u(t.mem_size(&f.ty)) }, role: Role::Size(i) });
+    }
+    out.push(Expected { entry: Entry { callee: true, data: u(MARK_SUB) }, role: Role::Marker });
+    for (k, (i, p)) in spec.subreads.iter().enumerate() {
+        let f = &spec.fields[*i];
+        let (mt, mv) = member_ty_val(t, &f.ty, &f.init, p);
+        out.push(Expected { entry: Entry { callee: true, data: t.encoded(&mt, mv) }, role: Role::Member(k) });
+    }
+    out.push(Expected { entry: Entry { callee: false, data: u(MARK_DONE) }, role: Role::Marker });
+    out
+}
+
+fn member_ty_val<'a>(types: &Types, t: &Ty, v: &'a Val, path: &[usize]) -> (Ty, &'a Val) {
+    let mut cur = t.clone();
+    for j in path {
+        cur = match &cur {
+            Ty::Struct(i) => types.structs[*i][*j].clone(),
+            Ty::Tuple(ts) => ts[*j].clone(),
+            _ => panic!("c12: bad member path"),
+        };
+    }
+    (cur, val_at(v, path))
+}
+
+fn expected_write(spec: &Spec) -> Vec<Expected> {
+    let t = &spec.types;
+    let mut state: Vec<Val> = spec.fields.iter().map(|f| f.init.clone()).collect();
+    let mut out = vec![];
+    for (j, st) in spec.steps.iter().enumerate() {
+        out.push(Expected { entry: Entry { callee: true, data: u(MARK_WR + j as u64) }, role: Role::Marker });
+        set_at(&mut state[st.field], &st.path, st.val.clone());
+        out.push(Expected { entry: Entry { callee: true, data: u(MARK_RD_BEGIN) }, role: Role::Marker });
+        for (i, f) in spec.fields.iter().enumerate() {
+            out.push(Expected { entry: Entry { callee: true, data: t.encoded(&f.ty, &state[i]) }, role: Role::ReadAfter { step: j, field: i } });
+        }
+        out.push(Expected { entry: Entry { callee: true, data: u(MARK_RD_END) }, role: Role::Marker });
+    }
+    out.push(Expected { entry: Entry { callee: true, data: u(MARK_SUB) }, role: Role::Marker });
+    for (k, (i, p)) in spec.subreads.iter().enumerate() {
+        let f = &spec.fields[*i];
+        let (mt, mv) = member_ty_val(t, &f.ty, &state[*i], p);
+        out.push(Expected { entry: Entry { callee: true, data: t.encoded(&mt, mv) }, role: Role::MemberAfter(k) });
+    }
+    out.push(Expected { entry: Entry { callee: false, data: u(MARK_DONE) }, role: Role::Marker });
+    out
+}
+
+fn field_desc(spec: &Spec, i: usize) -> String {
+    let f = &spec.fields[i];
+    format!("`{}`: {}{}", f.key_string(), spec.types.name(&f.ty), if f.key.is_some() { " (explicit key)" } else { "" })
+}
+
+enum Verdict {
+    Ok { sizes: Vec<u64> },
+    Violation(String, String),
+    Inconclusive(String),
+}
+
+fn observed_of(out: &UnitTestOutcome) -> Vec<Entry> {
+    out.logs.iter().map(|(id, _, d)| Entry { callee: id.bytes().any(|b| b != b'0'), data: d.clone() }).collect()
+}
+
+fn compare(spec: &Spec, expected: &[Expected], out: &UnitTestOutcome, which: &str, res: &mut ShardResult) -> Verdict {
+    let observed = observed_of(out);
+    let mut sizes = vec![0u64; spec.fields.len()];
+    let mut layout_differs: Option<String> = None;
+    for (k, ex) in expected.iter().enumerate() {
+        let Some(ob) = observed.get(k) else {
+            let kind = if out.outcome.reverted() { format!("{which}-test-reverted") } else { format!("{which}-test-missing-log") };
+            let at = match &ex.role {
+                Role::Read(i) | Role::Slot(i) | Role::Size(i) => format!("at field {}", field_desc(spec, *i)),
+                Role::ReadAfter { step, field } => format!("at the read of field {} after write step {step}", field_desc(spec, *field)),
+                Role::Member(k) | Role::MemberAfter(k) => format!("at member read #{k} of field {}", field_desc(spec, spec.subreads[*k].0)),
+                Role::Marker => "at a marker".to_string(),
+            };
+            return Verdict::Violation(kind, format!("the receipts of {which} end after {} log entries with outcome {:?} {at}", observed.len(), out.outcome));
+        };
+        if let Role::Size(i) = ex.role {
+            if ob.callee && ob.data.len() == 8 {
+                let v = u64::from_be_bytes(ob.data.clone().try_into().unwrap());
+                sizes[i] = v;
+                if ob.data != ex.entry.data {
+                    layout_differs = Some(format!("__size_of of field {} is {v}, the harness's layout model says {}", field_desc(spec, i), u64::from_be_bytes(ex.entry.data.clone().try_into().unwrap())));
+                }
+                continue;
+            }
+            return Verdict::Inconclusive(format!("size log of field {} is not a u64", field_desc(spec, i)));
+        }
+        if *ob == ex.entry {
+            match ex.role {
+                Role::Read(_) => res.count("reads_compared"),
+                Role::Slot(i) => {
+                    res.count("keys_recomputed");
+                    res.count(if spec.fields[i].key.is_some() { "keys_explicit_confirmed" } else { "keys_implicit_hash_confirmed" });
+                }
+                Role::Member(_) | Role::MemberAfter(_) => res.count("member_reads_compared"),
+                Role::ReadAfter { step, field } => {
+                    if spec.steps[step].field == field {
+                        res.count("writes_checked");
+                        if !spec.steps[step].path.is_empty() {
+                            res.count("member_writes_checked");
+                        }
+                    } else {
+                        res.count("neighbour_reads_after_write");
+                    }
+                }
+                _ => {}
+            }
+            continue;
+        }
+        let (kind, what) = match &ex.role {
+            Role::Marker => ("marker-mismatch".to_string(), "marker".to_string()),
+            Role::Read(i) => ("initial-read-mismatch".to_string(), format!("initial read of field {}", field_desc(spec, *i))),
+            Role::Slot(i) => (if spec.fields[*i].key.is_some() { "explicit-key-mismatch".to_string() } else { "implicit-key-mismatch".to_string() }, format!("slot key of field {}", field_desc(spec, *i))),
+            Role::Size(_) => unreachable!(),
+            Role::Member(k) => {
+                let (i, p) = &spec.subreads[*k];
+                ("member-read-mismatch".to_string(), format!("initial read of member `{}` of field {}", path_str(&spec.types, &spec.fields[*i].ty, p), field_desc(spec, *i)))
+            }
+            Role::MemberAfter(k) => {
+                let (i, p) = &spec.subreads[*k];
+                ("member-read-after-writes-mismatch".to_string(), format!("read of member `{}` of field {} after all writes", path_str(&spec.types, &spec.fields[*i].ty, p), field_desc(spec, *i)))
+            }
+            Role::ReadAfter { step, field } => {
+                let st = &spec.steps[*step];
+                let target = format!("{}{}", field_desc(spec, st.field), path_str(&spec.types, &spec.fields[st.field].ty, &st.path));
+                if st.field == *field {
+                    ("write-readback-mismatch".to_string(), format!("read of field {} after writing it (step {step}, target {target})", field_desc(spec, *field)))
+                } else {
+                    ("write-disturbed-another-field".to_string(), format!("read of field {} after write step {step} to {target}", field_desc(spec, *field)))
+                }
+            }
+        };
+        return Verdict::Violation(kind, format!("{what}: expected {}, observed {} ({})", short_hex(&ex.entry.data), short_hex(&ob.data), if ob.callee { "callee" } else { "caller" }));
+    }
+    if observed.len() > expected.len() {
+        return Verdict::Violation(format!("{which}-test-extra-log"), format!("{} unexpected log entries", observed.len() - expected.len()));
+    }
+    if out.outcome.reverted() || !out.passed {
+        return Verdict::Violation(format!("{which}-test-reverted"), format!("all log entries present but the test ended with {:?}", out.outcome));
+    }
+    if let Some(n) = layout_differs {
+        return Verdict::Inconclusive(n);
+    }
+    Verdict::Ok { sizes }
+}
+
+/// checks (2) and (3) on the slots the build emitted
+fn check_slots(spec: &Spec, sizes: &[u64], slots: &[([u8; 32], [u8; 32])], res: &mut ShardResult) -> Result<(), (String, String)> {
+    let ranges: Vec<([u8; 32], u64)> = spec.fields.iter().zip(sizes).map(|(f, s)| (f.expected_key(), slots_of(*s))).collect();
+    for i in 0..ranges.len() {
+        for j in (i + 1)..ranges.len() {
+            res.count("disjointness_checks");
+            if ranges_overlap(&ranges[i], &ranges[j]) {
+                return Err(("field-slot-ranges-overlap".into(), format!("fields {} ({} slots at {}) and {} ({} slots at {}) overlap", field_desc(spec, i), ranges[i].1, hex::encode(ranges[i].0), field_desc(spec, j), ranges[j].1, hex::encode(ranges[j].0))));
+            }
+        }
+    }
+    let mut seen = BTreeSet::new();
+    for (k, _) in slots {
+        if !seen.insert(*k) {
+            return Err(("slot-emitted-twice".into(), format!("slot {} is emitted twice", hex::encode(k))));
+        }
+        let owners: Vec<usize> = (0..ranges.len()).filter(|&i| ranges_overlap(&ranges[i], &(*k, 1))).collect();
+        match owners.len() {
+            1 => res.count("emitted_slots_attributed"),
+            0 => return Err(("emitted-slot-belongs-to-no-field".into(), format!("emitted slot {} is outside the slot range of every declared field", hex::encode(k)))),
+            _ => return Err(("emitted-slot-belongs-to-several-fields".into(), format!("emitted slot {} lies in the ranges of fields {:?}", hex::encode(k), owners))),
+        }
+    }
+    for (i, r) in ranges.iter().enumerate() {
+        for d in 0..r.1 {
+            let k = key_add(&r.0, d).unwrap();
+            if seen.contains(&k) {
+                res.count("field_slots_found_emitted");
+            } else {
+                // a read of the field would have reverted; only recorded
+                res.count("field_slots_not_emitted");
+                let _ = i;
+            }
+        }
+    }
+    Ok(())
+}
+
+fn note_shape(spec: &Spec, res: &mut ShardResult) {
+    res.add("fields", spec.fields.len() as u64);
+    res.max("max_fields", spec.fields.len() as u64);
+    for f in &spec.fields {
+        res.count(&format!("ns_depth.{}", f.ns.len()));
+        if f.key.is_some() {
+            res.count("explicit_key_fields");
+        }
+        let mut cs = BTreeSet::new();
+        spec.types.ctors(&f.ty, &mut cs);
+        res.count(&format!("field_type.{}", f.ty.ctor()));
+        for c in cs {
+            res.count(&format!("ctor.{c}"));
+        }
+        match slots_of(spec.types.mem_size(&f.ty)) {
+            1 => res.count("slots.1"),
+            2 => res.count("slots.2"),
+            _ => res.count("slots.gt2"),
+        }
+        if let Ty::Enum(i) = &f.ty {
+            if spec.types.enums[*i].iter().all(|v| v.is_none()) {
+                res.count("unit_only_enum_fields");
+            }
+        }
+    }
+    // same field name in two namespaces / namespace named like a field
+    let names: Vec<&String> = spec.fields.iter().map(|f| &f.name).collect();
+    if (0..names.len()).any(|i| (0..names.len()).any(|j| i != j && names[i] == names[j])) {
+        res.count("class.same_field_name_in_two_namespaces");
+    }
+    if spec.fields.iter().any(|f| spec.fields.iter().any(|g| g.ns.contains(&f.name))) {
+        res.count("class.namespace_named_like_a_field");
+    }
+    res.add("write_steps", spec.steps.len() as u64);
+    res.add("member_reads", spec.subreads.len() as u64);
+}
+
+// ------------------------------------------------------------------------------------------
+// running
+
+struct CaseId {
+    seed: u64,
+    shard: u64,
+    index: u64,
+}
+
+fn run_profile(spec: &Spec, src: &str, dir: &std::path::Path, profile: Profile, id: &CaseId, res: &mut ShardResult) {
+    let r = catch(AssertUnwindSafe(|| run_unit_tests(dir, profile, 1, None)));
+    let run = match r {
+        Err((loc, msg)) => {
+            res.count("compiler_panics");
+            res.inconclusive(format!("forc test panicked at {loc}: {}", msg.chars().take(120).collect::<String>()));
+            return;
+        }
+        Ok(Err(e)) => {
+            res.count("packages_rejected");
+            let n = res.counters.get("packages_rejected").copied().unwrap_or(0);
+            let msg = if n <= 2 { diagnose_pkg(dir, profile).first().cloned().unwrap_or_else(|| format!("no diagnostics ({e})")) } else { "not diagnosed".to_string() };
+            let b = bucket(&msg);
+            res.count(&format!("rejected.{b}"));
+            res.inconclusive(format!("generated package rejected ({}): {msg}", profile.name()));
+            let keep = work_dir("C12").join("rejected");
+            std::fs::create_dir_all(&keep).ok();
+            let f = keep.join(format!("{}_{}.sw", profile.name(), b.replace([' ', '#'], "_")));
+            if !f.exists() {
+                let _ = std::fs::write(&f, format!("// {msg}\n// seed {} shard {} index {}\n{src}", id.seed, id.shard, id.index));
+            }
+            return;
+        }
+        Ok(Ok(run)) => run,
+    };
+    res.count("packages_executed");
+    res.count(&format!("profile.{}", profile.name()));
+    res.evaluations += 1;
+    if spec.fields.len() >= 2 {
+        res.note_nontrivial(hash64(format!("{src}|{}", profile.name()).as_bytes()));
+    }
+    let replay = |test: &str| json!({"seed": id.seed, "shard": id.shard, "index": id.index, "profile": profile.name(), "test": test, "source": src, "witness": spec.witness});
+    let sig = |kind: &str| match spec.witness {
+        // a fixed witness of the known defect: its own signature, only for the symptom of that defect
+        Some(w) if kind == "initial-read-mismatch" => format!("unit-variant-word-in-storage-initializer:{w}"),
+        _ => format!("{kind}:{:016x}", hash64(src.as_bytes())),
+    };
+    if spec.witness.is_some() {
+        res.count("known_defect_witnesses_run");
+    }
+    // read test
+    let mut sizes = None;
+    match run.tests.iter().find(|t| t.name == "t_read") {
+        None => res.inconclusive("test t_read was not run by forc test"),
+        Some(out) => match compare(spec, &expected_read(spec), out, "read", res) {
+            Verdict::Ok { sizes: s } => sizes = Some(s),
+            Verdict::Inconclusive(n) => {
+                res.count("layout_model_disagreements");
+                res.inconclusive(format!("[{}] {n}", profile.name()));
+            }
+            Verdict::Violation(kind, desc) => res.violation(sig(&kind), format!("[{} t_read, {} fields] {desc}", profile.name(), spec.fields.len()), replay("t_read")),
+        },
+    }
+    // emitted slots
+    if let Some(sizes) = &sizes {
+        let slots: Vec<([u8; 32], [u8; 32])> = run
+            .built
+            .storage_slots
+            .iter()
+            .map(|s| {
+                let mut k = [0u8; 32];
+                k.copy_from_slice(s.key().as_ref());
+                let mut v = [0u8; 32];
+                v.copy_from_slice(s.value().as_ref());
+                (k, v)
+            })
+            .collect();
+        res.add("emitted_slots", slots.len() as u64);
+        if let Err((kind, desc)) = check_slots(spec, sizes, &slots, res) {
+            res.violation(sig(&kind), format!("[{} emitted slots, {} fields] {desc}", profile.name(), spec.fields.len()), replay("t_read"));
+        }
+        // write test (its oracle needs nothing from the read test, but a contract whose
+        // layout the harness misjudged may have overlapping explicit keys)
+        match run.tests.iter().find(|t| t.name == "t_write") {
+            _ if spec.witness.is_some() => {}
+            None => res.inconclusive("test t_write was not run by forc test"),
+            Some(out) => match compare(spec, &expected_write(spec), out, "write", res) {
+                Verdict::Ok { .. } => res.count("write_tests_ok"),
+                Verdict::Inconclusive(n) => res.inconclusive(n),
+                Verdict::Violation(kind, desc) => res.violation(sig(&kind), format!("[{} t_write, {} fields] {desc}", profile.name(), spec.fields.len()), replay("t_write")),
+            },
+        }
+    }
+    if res.samples.is_empty() {
+        res.sample(json!({"profile": profile.name(), "fields": spec.fields.iter().map(|f| format!("{}: {}{}", f.key_string(), spec.types.name(&f.ty), if f.key.is_some() { " [in key]" } else { "" })).collect::<Vec<_>>(), "emitted_slots": run.built.storage_slots.len(), "source": src}));
+    }
+}
+
+/// Case (seed, shard, index): index 0 of the first shards is one of the fixed witnesses of the
+/// known defect, everything else is a random declaration.
+fn case_spec(seed: u64, shard: u64, index: u64) -> Spec {
+    let w = witnesses();
+    if index == 0 && (shard as usize) < w.len() {
+        return witness_spec(w[shard as usize].0).unwrap();
+    }
+    let mut rng = rng_for(seed, shard, index);
+    gen_spec(&mut rng)
+}
+
+fn shard(ctx: &ShardCtx) -> ShardResult {
+    let mut res = ShardResult::default();
+    if ctx.shard == 0 && ctx.first_index == 0 {
+        // calibration of the oracle on synthetic honest / corrupted observations (milliseconds)
+        let (code, classes) = selftest(false);
+        res.add("oracle_selftest_corruption_classes_detected", classes as u64);
+        if code != 0 {
+            res.harness_fault = Some("the oracle self-test failed: run `swverif c12selftest`".into());
+            return res;
+        }
+    }
+    let mut i = ctx.first_index;
+    while ctx.time_left() {
+        let spec = case_spec(ctx.seed, ctx.shard, i);
+        let src = render(&spec);
+        journal_current(ctx, &src);
+        let dir = ctx.work().join(format!("pkg{i}"));
+        let _ = std::fs::remove_dir_all(&dir);
+        if let Err(e) = write_pkg(&dir, "gencontract", &src, true) {
+            res.harness_fault = Some(format!("cannot write package: {e}"));
+            return res;
+        }
+        note_shape(&spec, &mut res);
+        res.count("packages_generated");
+        let id = CaseId { seed: ctx.seed, shard: ctx.shard, index: i };
+        let order = if (i + ctx.shard) % 2 == 0 { [Profile::Debug, Profile::Release] } else { [Profile::Release, Profile::Debug] };
+        for (k, profile) in order.into_iter().enumerate() {
+            if k == 1 && !ctx.time_left() {
+                break;
+            }
+            ctx.begin_case(i, &format!("// {} seed {} shard {} index {i}\n{src}", profile.name(), ctx.seed, ctx.shard), &res);
+            run_profile(&spec, &src, &dir, profile, &id, &mut res);
+            ctx.end_case();
+        }
+        let _ = std::fs::remove_dir_all(&dir);
+        i += 1;
+        write_partial(ctx, &res);
+    }
+    res
+}
+
+fn replay(case: &Value) -> ShardResult {
+    let mut res = ShardResult::default();
+    let (Some(seed), Some(sh), Some(index)) = (case["seed"].as_u64(), case["shard"].as_u64(), case["index"].as_u64()) else {
+        res.harness_fault = Some("replay case lacks seed/shard/index".into());
+        return res;
+    };
+    let spec = case_spec(seed, sh, index);
+    let src = render(&spec);
+    if case["source"].as_str() != Some(src.as_str()) {
+        res.harness_fault = Some("the generator no longer reproduces the recorded package; run `swverif c11probe <file.sw>` on the recorded source".into());
+        return res;
+    }
+    let dir = work_dir("C12").join("replay");
+    clean_dir(&dir);
+    if let Err(e) = write_pkg(&dir, "gencontract", &src, true) {
+        res.harness_fault = Some(format!("cannot write package: {e}"));
+        return res;
+    }
+    let profile = if case["profile"].as_str() == Some("release") { Profile::Release } else { Profile::Debug };
+    run_profile(&spec, &src, &dir, profile, &CaseId { seed, shard: sh, index }, &mut res);
+    res
+}
+
+
+// ------------------------------------------------------------------------------------------
+// oracle self-test on synthetic observations (no compiler involved)
+
+fn synth_outcome(name: &str, entries: &[Entry], reverted: bool) -> UnitTestOutcome {
+    let callee_id = "ab".repeat(32);
+    let zero_id = "00".repeat(32);
+    UnitTestOutcome {
+        name: name.to_string(),
+        passed: !reverted,
+        outcome: if reverted { Outcome::Revert(0) } else { Outcome::Return(0) },
+        logs: entries.iter().map(|e| (if e.callee { callee_id.clone() } else { zero_id.clone() }, 0u64, e.data.clone())).collect(),
+        gas_used: 0,
+    }
+}
+
+fn wrong_key(f: &Field, how: usize) -> [u8; 32] {
+    let mut h = Sha256::new();
+    match how {
+        0 => {
+            // domain byte 1 instead of 0
+            h.update([1u8]);
+            h.update(f.key_string().as_bytes());
+        }
+        1 => {
+            // no domain byte
+            h.update(f.key_string().as_bytes());
+        }
+        _ => {
+            // '.' between namespaces / '::' before the field
+            h.update([0u8]);
+            let s = if f.ns.is_empty() { format!("storage::{}", f.name) } else { format!("storage.{}.{}", f.ns.join("."), f.name) };
+            h.update(s.as_bytes());
+        }
+    }
+    h.finalize().into()
+}
+
+/// `swverif c12selftest`: feed the comparisons with honest and corrupted observations
+fn selftest(verbose: bool) -> (i32, usize) {
+    let mut failures = 0;
+    let mut seen: BTreeSet<String> = BTreeSet::new();
+    let mut honest_ok = 0;
+    for v in 0..80u64 {
+        let mut rng = rng_for(77, v, 0);
+        let spec = gen_spec(&mut rng);
+        let sizes: Vec<u64> = spec.fields.iter().map(|f| spec.types.mem_size(&f.ty)).collect();
+        let rd = expected_read(&spec);
+        let wr = expected_write(&spec);
+        let honest_rd: Vec<Entry> = rd.iter().map(|e| e.entry.clone()).collect();
+        let honest_wr: Vec<Entry> = wr.iter().map(|e| e.entry.clone()).collect();
+        let mut scratch = ShardResult::default();
+        match (compare(&spec, &rd, &synth_outcome("t_read", &honest_rd, false), "read", &mut scratch), compare(&spec, &wr, &synth_outcome("t_write", &honest_wr, false), "write", &mut scratch)) {
+            (Verdict::Ok { .. }, Verdict::Ok { .. }) => honest_ok += 1,
+            _ => {
+                eprintln!("FAIL honest receipts rejected (variant {v})");
+                failures += 1;
+            }
+        }
+        let mut expect = |label: &str, exp: &[Expected], entries: Vec<Entry>, reverted: bool, which: &str, want: &str| {
+            let mut scratch = ShardResult::default();
+            match compare(&spec, exp, &synth_outcome("t", &entries, reverted), which, &mut scratch) {
+                Verdict::Violation(k, _) if k == want => {
+                    seen.insert(format!("{label} -> {k}"));
+                }
+                Verdict::Violation(k, d) => {
+                    eprintln!("FAIL {label}: expected {want}, got {k}: {d}");
+                    failures += 1;
+                }
+                _ => {
+                    eprintln!("FAIL {label}: expected {want}, got no violation");
+                    failures += 1;
+                }
+            }
+        };
+        for (k, e) in rd.iter().enumerate() {
+            match e.role {
+                Role::Read(_) => {
+                    let mut x = honest_rd.clone();
+                    let l = x[k].data.len() - 1;
+                    x[k].data[l] ^= 0x80;
+                    expect("initial read with a flipped bit", &rd, x, false, "read", "initial-read-mismatch");
+                    let mut x = honest_rd.clone();
+                    x.truncate(k);
+                    expect("read reverts", &rd, x, true, "read", "read-test-reverted");
+                }
+                Role::Slot(i) => {
+                    if spec.fields[i].key.is_none() {
+                        for how in 0..3 {
+                            let mut x = honest_rd.clone();
+                            x[k].data = wrong_key(&spec.fields[i], how).to_vec();
+                            expect(["key hashed with domain byte 1", "key hashed without domain byte", "key hashed with other separators"][how], &rd, x, false, "read", "implicit-key-mismatch");
+                        }
+                    } else {
+                        let mut x = honest_rd.clone();
+                        x[k].data[31] ^= 1;
+                        expect("explicit key off by one", &rd, x, false, "read", "explicit-key-mismatch");
+                    }
+                }
+                Role::Member(_) => {
+                    let mut x = honest_rd.clone();
+                    x[k].data.push(0);
+                    expect("member read with a trailing byte", &rd, x, false, "read", "member-read-mismatch");
+                }
+                _ => {}
+            }
+        }
+        for (k, e) in wr.iter().enumerate() {
+            if let Role::ReadAfter { step, field } = e.role {
+                let mut x = honest_wr.clone();
+                let l = x[k].data.len() - 1;
+                x[k].data[l] ^= 1;
+                if spec.steps[step].field == field {
+                    expect("written field reads back differently", &wr, x, false, "write", "write-readback-mismatch");
+                } else {
+                    expect("another field changed by a write", &wr, x, false, "write", "write-disturbed-another-field");
+                }
+            }
+        }
+        // emitted slots
+        let mut slots: Vec<([u8; 32], [u8; 32])> = vec![];
+        for (f, s) in spec.fields.iter().zip(&sizes) {
+            for d in 0..slots_of(*s) {
+                slots.push((key_add(&f.expected_key(), d).unwrap(), [0u8; 32]));
+            }
+        }
+        let mut scratch = ShardResult::default();
+        if let Err((k, d)) = check_slots(&spec, &sizes, &slots, &mut scratch) {
+            eprintln!("FAIL honest slots rejected: {k}: {d}");
+            failures += 1;
+        }
+        let mut expect_slots = |label: &str, sizes: &[u64], slots: &[([u8; 32], [u8; 32])], want: &str| {
+            let mut scratch = ShardResult::default();
+            match check_slots(&spec, sizes, slots, &mut scratch) {
+                Err((k, _)) if k == want => {
+                    seen.insert(format!("{label} -> {k}"));
+                }
+                other => {
+                    eprintln!("FAIL {label}: expected {want}, got {:?}", other.map_err(|e| e.0));
+                    failures += 1;
+                }
+            }
+        };
+        // a slot emitted under a wrongly hashed key
+        if let Some(i) = spec.fields.iter().position(|f| f.key.is_none()) {
+            let mut x = slots.clone();
+            let pos = x.iter().position(|(k, _)| *k == spec.fields[i].expected_key()).unwrap();
+            x[pos].0 = wrong_key(&spec.fields[i], 0);
+            expect_slots("slot emitted under a key with domain byte 1", &sizes, &x, "emitted-slot-belongs-to-no-field");
+        }
+        // one slot more than the field has
+        {
+            let f = &spec.fields[0];
+            let mut x = slots.clone();
+            let extra = key_add(&f.expected_key(), slots_of(sizes[0])).unwrap();
+            if !x.iter().any(|(k, _)| *k == extra) {
+                x.push((extra, [0u8; 32]));
+                expect_slots("a slot beyond the end of a field", &sizes, &x, "emitted-slot-belongs-to-no-field");
+            }
+        }
+        // two fields with adjacent explicit keys: if the first were one slot larger they overlap
+        for i in 0..spec.fields.len() {
+            for j in 0..spec.fields.len() {
+                if i != j && spec.fields[i].key.is_some() && key_add(&spec.fields[i].expected_key(), slots_of(sizes[i])) == Some(spec.fields[j].expected_key()) {
+                    let mut s2 = sizes.clone();
+                    s2[i] += 32;
+                    expect_slots("adjacent explicit fields, the first one slot larger", &s2, &slots, "field-slot-ranges-overlap");
+                }
+            }
+        }
+    }
+    if verbose {
+        for s in &seen {
+            println!("ok   {s}");
+        }
+        println!("c12selftest: {honest_ok} honest packages accepted, {} corruption classes detected, {failures} failures", seen.len());
+    }
+    (if failures == 0 && honest_ok > 0 && seen.len() >= 10 { 0 } else { 1 }, seen.len())
+}
+
+/// `swverif c12gen <seed> <shard> <index>`: print the generated package
+fn subcommand(args: &[String]) -> Option<i32> {
+    if args.first().map(|s| s.as_str()) == Some("c12selftest") {
+        return Some(selftest(true).0);
+    }
+    if args.first().map(|s| s.as_str()) != Some("c12gen") {
+        return None;
+    }
+    let n: Vec<u64> = args[1..4].iter().map(|s| s.parse().expect("number")).collect();
+    let spec = case_spec(n[0], n[1], n[2]);
+    println!("{}", render(&spec));
+    Some(0)
+}
